@@ -26,6 +26,7 @@ import (
 	"github.com/samaritan-proxy/samaritan/pb/config/service"
 	"github.com/samaritan-proxy/samaritan/proc/internal/log"
 	netutil "github.com/samaritan-proxy/samaritan/proc/internal/net"
+	"github.com/samaritan-proxy/samaritan/utils/verifhook"
 )
 
 type ConnHandlerFunc func(conn net.Conn)
@@ -89,6 +90,7 @@ func (l *listener) Serve() error {
 
 	var ln net.Listener
 	for {
+		verifhook.At("listener.Serve.check", l)
 		select {
 		case <-l.quit:
 			return nil
@@ -97,6 +99,7 @@ func (l *listener) Serve() error {
 		default:
 		}
 
+		verifhook.At("listener.Serve.bind", l)
 		var err error
 		ln, err = defaultListenFunc("tcp", address)
 		if err == nil {
@@ -106,6 +109,7 @@ func (l *listener) Serve() error {
 		l.Warnf("listen on %s failed: %v, will keep trying...", address, err)
 		// TODO: use backoff algorithm to calculate sleep time.
 		t := time.NewTimer(time.Millisecond * 500)
+		verifhook.At("listener.Serve.retryWait", l)
 		select {
 		case <-t.C:
 		case <-l.drain:
@@ -115,13 +119,16 @@ func (l *listener) Serve() error {
 		}
 	}
 
+	verifhook.At("listener.Serve.publish", l)
 	l.ln = ln
 	l.Infof("start serving at %s", ln.Addr().String())
 	l.serve()
 	l.Infof("stop serving at %s, waiting all conns done", ln.Addr().String())
 
+	verifhook.At("listener.Serve.waitConns", l)
 	l.connsWg.Wait()
 	l.Infof("all conns done")
+	verifhook.At("listener.Serve.closeDone", l)
 	close(l.done)
 	return nil
 }
@@ -129,6 +136,7 @@ func (l *listener) Serve() error {
 func (l *listener) serve() {
 	var tempDelay time.Duration
 	for {
+		verifhook.At("listener.Serve.accept", l)
 		conn, err := l.ln.Accept()
 		if err != nil {
 			if nerr, ok := err.(net.Error); ok && nerr.Temporary() {
@@ -206,6 +214,7 @@ func (l *listener) wrapRawConn(rawConn net.Conn) net.Conn {
 }
 
 func (l *listener) addConn(conn net.Conn) bool {
+	verifhook.At2("listener.addConn", l, conn)
 	l.mu.Lock()
 	defer l.mu.Unlock()
 	if l.conns == nil {
@@ -223,6 +232,7 @@ func (l *listener) addConn(conn net.Conn) bool {
 }
 
 func (l *listener) removeConn(conn net.Conn) {
+	verifhook.At2("listener.removeConn", l, conn)
 	l.mu.Lock()
 	defer l.mu.Unlock()
 	if l.conns == nil {
@@ -252,9 +262,11 @@ func (l *listener) Address() string {
 }
 
 func (l *listener) Drain() error {
+	verifhook.At("listener.Drain", l)
 	l.drainOnce.Do(func() {
 		close(l.drain)
 	})
+	verifhook.At("listener.Drain.readLn", l)
 	if l.ln != nil {
 		l.ln.Close()
 	}
@@ -262,21 +274,26 @@ func (l *listener) Drain() error {
 }
 
 func (l *listener) Stop() error {
+	verifhook.At("listener.Stop", l)
 	l.quitOnce.Do(func() {
 		close(l.quit)
 	})
 
+	verifhook.At("listener.Stop.swap", l)
 	l.mu.Lock()
 	conns := l.conns
 	l.conns = nil
 	l.mu.Unlock()
 
+	verifhook.At("listener.Stop.readLn", l)
 	if l.ln != nil {
 		l.ln.Close()
 	}
+	verifhook.At("listener.Stop.closeConns", l)
 	for conn := range conns {
 		conn.Close()
 	}
+	verifhook.At("listener.Stop.waitDone", l)
 	<-l.done
 	return nil
 }
